@@ -14,7 +14,7 @@ import Proofs.C18Isolation
         /verif/extract/c18globals on every run; `decide` re-checks them):
           `globals_ok` / `globals_once`  every write to a package-level variable in a function body
                                          other than the straight-line body of `init` is allow-listed
-                                         below AND lies inside a sync.Once.Do literal;
+                                         below AND executes only under a sync.Once / at init time;
           `ptrcalls_ok`                  every pointer-receiver method called on a package-level variable is
                                          one of a justified list of read-only / internally synchronised methods;
           `other_calls_ok`, `no_iface_calls`   every interface / value-receiver method selected on a package-level
@@ -29,8 +29,8 @@ import Proofs.C18Isolation
                                          and the only code in the whole module that assigns a field of a
                                          decode.Group / decode.Format / decode.Dependency / interp.Registry is
                                          registration (init time) or the Once body of resolveGroups;
-          `init_only_closed`, `init_only_leaves`   the registration functions are referenced from `init`
-                                         bodies only;
+          (`guard` of a site = when it can execute, computed by the extractor from the module's call graph:
+                                         init-only, Once-only, or any time)
           `unlinked_ok`, `scan_not_empty`.
         These discharge the hypothesis `NoWrite` of (B) for the code as it is — up to the stated limits of a
         syntactic/type-level scan (no pointer analysis: a write through a local alias of a global map or
@@ -56,13 +56,13 @@ open FqModel FqModel.Isolation Proofs.C18
      `instrMap` runs below `decodeWASM`, i.e. after its own `Do` returned (happens-before by sync.Once).
      `instrMap` is an array/map indexed by opcode that is otherwise filled by its initialiser. -/
 def allowlist : List Gen.GlobalWrite := [
-  ⟨"format/wasm", "instrMap", "decodeWASM.func", "index", true⟩
+  ⟨"format/wasm", "instrMap", "", "index", "once:format/wasm.instrMapOnce"⟩
 ]
 
 theorem globals_ok : ∀ w ∈ Gen.writes, w ∈ allowlist := by decide
 
 /-- the hypothesis of the interleaving theorems in the form they use it: the shared write-set is ⊆ {Once} -/
-theorem globals_once : ∀ w ∈ Gen.writes, w.once = true := by decide
+theorem globals_once : ∀ w ∈ Gen.writes, w.guard ≠ "run" := by decide
 
 /-- Pointer-receiver methods that are called on package-level variables, each judged by reading it:
 
@@ -76,7 +76,8 @@ theorem globals_once : ∀ w ∈ Gen.writes, w.once = true := by decide
   * `*os.File.{Fd,Write}` on os.Stdin/Stdout/Stderr — pkg/cli's real-OS adapter, not used by decoding;
     *os.File methods are safe for concurrent use (internal/poll.FD locks).
   * `*interp.Registry.{Format,FS,Func}` on `DefaultRegistry` — registration; only reachable through
-    `interp.Register*`, which are referenced from `init` bodies only (`init_only_closed`/`init_only_leaves`);
+    `interp.Register*`, which are called from straight-line `init` bodies only (guard `init`, from the extractor's call graph;
+    `unref` = `RegisterIter0`, which nothing in the module calls) — `registry_ptrcalls_only_default`;
     `Registry.Format` moreover panics once the registry is resolved (registry.go:39-42). -/
 def safeMethods : List String := [
   "*regexp.Regexp.Match",
@@ -94,11 +95,11 @@ def safeMethods : List String := [
 
 theorem ptrcalls_ok : ∀ c ∈ Gen.ptrCalls, c.method ∈ safeMethods := by decide
 
-/-- registration methods may be called on `DefaultRegistry` only — and by `init_only_*` only at init time -/
+/-- registration methods are called on `DefaultRegistry` only, and only at init time -/
 theorem registry_ptrcalls_only_default :
     ∀ c ∈ Gen.ptrCalls, c.method ∈ ["*github.com/wader/fq/pkg/interp.Registry.Format",
         "*github.com/wader/fq/pkg/interp.Registry.FS", "*github.com/wader/fq/pkg/interp.Registry.Func"] →
-      c.pkg = "pkg/interp" ∧ c.var = "DefaultRegistry" := by decide
+      c.pkg = "pkg/interp" ∧ c.var = "DefaultRegistry" ∧ c.guard ∈ ["init", "unref"] := by decide
 
 /-- Methods WITHOUT a pointer receiver selected on package-level variables — interface methods (dynamic
     dispatch: may mutate whatever the interface holds; a package-level `hash.Hash32` whose `Write`/`Sum` is
@@ -114,23 +115,23 @@ theorem registry_ptrcalls_only_default :
   * `embed.FS.Open` on `builtinFS` (pkg/interp): read-only embedded file system, safe for concurrent use.
   There is NO interface-typed entry (`kind = "iface"`) on the current tree — `no_iface_calls`. -/
 def otherCallAllow : List Gen.OtherCall := [
-  ⟨"format/bzip2", "encoding/binary.BigEndian", "encoding/binary.bigEndian.Uint32", "value", false⟩,
-  ⟨"format/elf", "dynamicTableMap", "github.com/wader/fq/format/elf.dynamicTableEntries.lookup", "value", false⟩,
-  ⟨"format/fit/mappers", "epochDate", "time.Time.Add", "value", false⟩,
-  ⟨"format/inet", "encoding/binary.BigEndian", "encoding/binary.bigEndian.PutUint32", "value", false⟩,
-  ⟨"format/inet", "encoding/binary.BigEndian", "encoding/binary.bigEndian.PutUint64", "value", false⟩,
-  ⟨"format/inet", "format.IPv4ProtocolMap", "github.com/wader/fq/pkg/scalar.UintMap.MapUint", "value", false⟩,
-  ⟨"format/inet", "nextHeaderNames", "github.com/wader/fq/pkg/scalar.UintMapSymStr.MapUint", "value", false⟩,
-  ⟨"format/inet/flowsdecoder", "encoding/binary.BigEndian", "encoding/binary.bigEndian.Uint16", "value", false⟩,
-  ⟨"format/luajit", "encoding/binary.BigEndian", "encoding/binary.bigEndian.PutUint64", "value", false⟩,
-  ⟨"format/mp4", "encoding/binary.BigEndian", "encoding/binary.bigEndian.PutUint32", "value", false⟩,
-  ⟨"format/pcap", "encoding/binary.BigEndian", "encoding/binary.bigEndian.PutUint32", "value", false⟩,
-  ⟨"format/postgres/common", "encoding/binary.LittleEndian", "encoding/binary.littleEndian.Uint32", "value", false⟩,
-  ⟨"format/tar", "unixTimeEpochDate", "time.Time.Add", "value", false⟩,
-  ⟨"pkg/decode", "encoding/binary.BigEndian", "encoding/binary.bigEndian.Uint16", "value", false⟩,
-  ⟨"pkg/decode", "encoding/binary.BigEndian", "encoding/binary.bigEndian.Uint32", "value", false⟩,
-  ⟨"pkg/decode", "encoding/binary.BigEndian", "encoding/binary.bigEndian.Uint64", "value", false⟩,
-  ⟨"pkg/interp", "builtinFS", "embed.FS.Open", "value", false⟩
+  ⟨"format/bzip2", "encoding/binary.BigEndian", "encoding/binary.bigEndian.Uint32", "value", "run"⟩,
+  ⟨"format/elf", "dynamicTableMap", "github.com/wader/fq/format/elf.dynamicTableEntries.lookup", "value", "run"⟩,
+  ⟨"format/fit/mappers", "epochDate", "time.Time.Add", "value", "run"⟩,
+  ⟨"format/inet", "encoding/binary.BigEndian", "encoding/binary.bigEndian.PutUint32", "value", "run"⟩,
+  ⟨"format/inet", "encoding/binary.BigEndian", "encoding/binary.bigEndian.PutUint64", "value", "run"⟩,
+  ⟨"format/inet", "format.IPv4ProtocolMap", "github.com/wader/fq/pkg/scalar.UintMap.MapUint", "value", "run"⟩,
+  ⟨"format/inet", "nextHeaderNames", "github.com/wader/fq/pkg/scalar.UintMapSymStr.MapUint", "value", "run"⟩,
+  ⟨"format/inet/flowsdecoder", "encoding/binary.BigEndian", "encoding/binary.bigEndian.Uint16", "value", "run"⟩,
+  ⟨"format/luajit", "encoding/binary.BigEndian", "encoding/binary.bigEndian.PutUint64", "value", "run"⟩,
+  ⟨"format/mp4", "encoding/binary.BigEndian", "encoding/binary.bigEndian.PutUint32", "value", "run"⟩,
+  ⟨"format/pcap", "encoding/binary.BigEndian", "encoding/binary.bigEndian.PutUint32", "value", "run"⟩,
+  ⟨"format/postgres/common", "encoding/binary.LittleEndian", "encoding/binary.littleEndian.Uint32", "value", "run"⟩,
+  ⟨"format/tar", "unixTimeEpochDate", "time.Time.Add", "value", "run"⟩,
+  ⟨"pkg/decode", "encoding/binary.BigEndian", "encoding/binary.bigEndian.Uint16", "value", "run"⟩,
+  ⟨"pkg/decode", "encoding/binary.BigEndian", "encoding/binary.bigEndian.Uint32", "value", "run"⟩,
+  ⟨"pkg/decode", "encoding/binary.BigEndian", "encoding/binary.bigEndian.Uint64", "value", "run"⟩,
+  ⟨"pkg/interp", "builtinFS", "embed.FS.Open", "value", "run"⟩
 ]
 
 theorem other_calls_ok : ∀ c ∈ Gen.otherCalls, c ∈ otherCallAllow := by decide
@@ -198,7 +199,7 @@ theorem guarded_types_ok : ∀ t ∈ Gen.guardedTypes, t ∈ guardedTypesKnown :
 
   * lazyre.RE `S`, `m`, `re` in `(*RE).Must` (lazyre.go:24-29): all between `lr.m.Lock()` and the deferred Unlock.
   * Registry `EnvFuncFns` in `(*Interp).Eval`, `FSs` in `(*Interp)._registry`: read-only after init
-    (written by `Registry.Func`/`FS`, init time only — `init_only_closed`), never touched by the Once body.
+    (written by `Registry.Func`/`FS`, init time only — `type_writes_ok`), never touched by the Once body.
   * Registry `EnvFuncFns`/`FSs`/`allGroup`/`groups`/`formatResolved` in `(*Registry).Func`/`FS`/`Format`:
     registration, init time only.
   * Registry `groups` in `(*Registry).Group`, `(*Registry).Groups`, `allGroup` in `(*Registry).MustAll`:
@@ -208,25 +209,22 @@ theorem guarded_types_ok : ∀ t ∈ Gen.guardedTypes, t ∈ guardedTypesKnown :
   fast path `if r.formatResolved { return }` in front of `Do` (broken double-checked locking) would be a new
   entry here. -/
 def guardedUseAllow : List Gen.GuardedUse := [
-  ⟨"github.com/wader/fq/internal/lazyre.RE", "S", "internal/lazyre", "(*RE).Must"⟩,
-  ⟨"github.com/wader/fq/internal/lazyre.RE", "m", "internal/lazyre", "(*RE).Must"⟩,
-  ⟨"github.com/wader/fq/internal/lazyre.RE", "re", "internal/lazyre", "(*RE).Must"⟩,
-  ⟨"github.com/wader/fq/pkg/interp.Registry", "EnvFuncFns", "pkg/interp", "(*Interp).Eval"⟩,
-  ⟨"github.com/wader/fq/pkg/interp.Registry", "EnvFuncFns", "pkg/interp", "(*Registry).Func"⟩,
-  ⟨"github.com/wader/fq/pkg/interp.Registry", "FSs", "pkg/interp", "(*Interp)._registry"⟩,
-  ⟨"github.com/wader/fq/pkg/interp.Registry", "FSs", "pkg/interp", "(*Registry).FS"⟩,
-  ⟨"github.com/wader/fq/pkg/interp.Registry", "allGroup", "pkg/interp", "(*Registry).Format"⟩,
-  ⟨"github.com/wader/fq/pkg/interp.Registry", "allGroup", "pkg/interp", "(*Registry).MustAll"⟩,
-  ⟨"github.com/wader/fq/pkg/interp.Registry", "formatResolved", "pkg/interp", "(*Registry).Format"⟩,
-  ⟨"github.com/wader/fq/pkg/interp.Registry", "groups", "pkg/interp", "(*Registry).Format"⟩,
-  ⟨"github.com/wader/fq/pkg/interp.Registry", "groups", "pkg/interp", "(*Registry).Group"⟩,
-  ⟨"github.com/wader/fq/pkg/interp.Registry", "groups", "pkg/interp", "(*Registry).Groups"⟩
+  ⟨"github.com/wader/fq/internal/lazyre.RE", "S", "internal/lazyre", "(*RE).Must", "run"⟩,
+  ⟨"github.com/wader/fq/internal/lazyre.RE", "m", "internal/lazyre", "(*RE).Must", "run"⟩,
+  ⟨"github.com/wader/fq/internal/lazyre.RE", "re", "internal/lazyre", "(*RE).Must", "run"⟩,
+  ⟨"github.com/wader/fq/pkg/interp.Registry", "EnvFuncFns", "pkg/interp", "(*Interp).Eval", "run"⟩,
+  ⟨"github.com/wader/fq/pkg/interp.Registry", "FSs", "pkg/interp", "(*Interp)._registry", "run"⟩,
+  ⟨"github.com/wader/fq/pkg/interp.Registry", "allGroup", "pkg/interp", "(*Registry).MustAll", "run"⟩,
+  ⟨"github.com/wader/fq/pkg/interp.Registry", "groups", "pkg/interp", "(*Registry).Group", "run"⟩,
+  ⟨"github.com/wader/fq/pkg/interp.Registry", "groups", "pkg/interp", "(*Registry).Groups", "run"⟩
 ]
 
+/-- accesses that can only execute at init time (guard `init`, computed from the call graph: the registration
+    methods) need no entry; every access that can execute at run time is allow-listed above -/
 theorem guarded_uses_ok :
     ∀ u ∈ Gen.guardedUses,
       u.typ ∈ ["github.com/wader/fq/internal/lazyre.RE", "github.com/wader/fq/pkg/interp.Registry"] →
-      u ∈ guardedUseAllow := by decide
+      u.guard = "init" ∨ u ∈ guardedUseAllow := by decide
 
 /-- The only package-level variables whose address is taken outside `init` are `decode.Group`s
     (`d.FieldFormat("frame", &mp3FrameGroup, nil)` …): pkg/decode only reads `Group.Formats` /
@@ -236,26 +234,20 @@ def allowedAddrTypes : List String := ["github.com/wader/fq/pkg/decode.Group"]
 theorem addr_types_ok : ∀ t ∈ Gen.addrTakenTypes, t ∈ allowedAddrTypes := by decide
 
 /-- Every assignment in the linked module code to a field of decode.Group / decode.Format /
-    decode.Dependency / interp.Registry (through ANY expression, not only through a global):
+    decode.Dependency / interp.Registry (through ANY expression, not only through a global) can execute only
+      * at init time — guard `init`: the extractor's call graph shows that the function it stands in
+        (`Registry.Format/FS/Func` and whatever helpers they use) is entered only from straight-line `init`
+        bodies, directly or through functions that are themselves init-only (`interp.Register*`); or
+      * under the registry's Once — guard `once:…Registry.formatResolveOnce`: lexically inside the literal
+        passed to `r.formatResolveOnce.Do` or in a function called only from there (helpers extracted from the
+        literal keep this guard; a function that escapes as a value or is also called from a decode path gets
+        guard `run`).
+    `Registry.Format` moreover refuses to run after resolution (registry.go:39-42).  No function names are
+    compared: extraction, renaming and reordering of init-time / Once-time code leave the fact unchanged. -/
+def sharedWriteGuards : List String := [
+  "init", "once:github.com/wader/fq/pkg/interp.Registry.formatResolveOnce"]
 
-  * `(*Registry).Format` (registry.go:38-58): registration — appends the format to its groups, names it,
-    records the groups.  Init time only (`init_only_closed`), refuses to run after resolution.
-  * `(*Registry).FS`, `(*Registry).Func` (registry.go:60-66): registration, init time only.
-  * `(*Registry).resolveGroups.func` (registry.go:78-100): the body of `formatResolveOnce.Do` — fills
-    `d.Out.Formats` of every dependency, sorts, sets `formatResolved`.  Once-guarded; `once = true`. -/
-def typeWriteAllow : List Gen.TypeWrite := [
-  ⟨"github.com/wader/fq/pkg/decode.Dependency", "Out", "pkg/interp", "(*Registry).resolveGroups.func", true⟩,
-  ⟨"github.com/wader/fq/pkg/decode.Format", "Name", "pkg/interp", "(*Registry).Format", false⟩,
-  ⟨"github.com/wader/fq/pkg/decode.Group", "Formats", "pkg/interp", "(*Registry).Format", false⟩,
-  ⟨"github.com/wader/fq/pkg/decode.Group", "Formats", "pkg/interp", "(*Registry).resolveGroups.func", true⟩,
-  ⟨"github.com/wader/fq/pkg/interp.Registry", "EnvFuncFns", "pkg/interp", "(*Registry).Func", false⟩,
-  ⟨"github.com/wader/fq/pkg/interp.Registry", "FSs", "pkg/interp", "(*Registry).FS", false⟩,
-  ⟨"github.com/wader/fq/pkg/interp.Registry", "allGroup", "pkg/interp", "(*Registry).Format", false⟩,
-  ⟨"github.com/wader/fq/pkg/interp.Registry", "formatResolved", "pkg/interp", "(*Registry).resolveGroups.func", true⟩,
-  ⟨"github.com/wader/fq/pkg/interp.Registry", "groups", "pkg/interp", "(*Registry).Format", false⟩
-]
-
-theorem type_writes_ok : ∀ w ∈ Gen.typeWrites, w ∈ typeWriteAllow := by decide
+theorem type_writes_ok : ∀ w ∈ Gen.typeWrites, w.guard ∈ sharedWriteGuards := by decide
 
 /-- the extractor was asked about the registry-shared types (a changed lib/props/C18.json cannot silently
     drop them) -/
@@ -263,37 +255,12 @@ theorem shared_types_asked :
     ∀ t ∈ ["github.com/wader/fq/pkg/decode.Format", "github.com/wader/fq/pkg/decode.Dependency",
            "github.com/wader/fq/pkg/interp.Registry"], t ∈ Gen.extraSharedTypes := by decide
 
-/-- every non-Once write to a shared type sits in one of these functions … -/
-def initOnly : List String := [
-  "pkg/interp.(*Registry).FS", "pkg/interp.(*Registry).Format", "pkg/interp.(*Registry).Func",
-  "pkg/interp.RegisterFS", "pkg/interp.RegisterFormat",
-  "pkg/interp.RegisterFunc0", "pkg/interp.RegisterFunc1", "pkg/interp.RegisterFunc2",
-  "pkg/interp.RegisterIter0", "pkg/interp.RegisterIter1", "pkg/interp.RegisterIter2"
-]
-
-theorem type_writes_in_init_only :
-    ∀ w ∈ Gen.typeWrites, w.once = false → (w.pkg ++ "." ++ w.fn) ∈ initOnly := by decide
-
-/-- … which are referenced (called or taken as a value), outside `init` bodies and package-level
-    initialisers, only by each other: the set is closed … -/
-theorem init_only_closed :
-    ∀ r ∈ Gen.writerRefs, r.writer ∈ initOnly → ∀ f ∈ r.nonInitRefs, f ∈ initOnly := by decide
-
-/-- … every member was examined by the extractor … -/
-theorem init_only_listed : ∀ w ∈ initOnly, w ∈ Gen.writerRefs.map (·.writer) := by decide
-
-/-- … and the entry points `interp.Register*` have no reference at all outside `init` bodies. -/
-theorem init_only_leaves :
-    ∀ r ∈ Gen.writerRefs, r.writer ∈ ["pkg/interp.RegisterFS", "pkg/interp.RegisterFormat",
-      "pkg/interp.RegisterFunc0", "pkg/interp.RegisterFunc1", "pkg/interp.RegisterFunc2",
-      "pkg/interp.RegisterIter0", "pkg/interp.RegisterIter1", "pkg/interp.RegisterIter2"] → r.nonInitRefs = [] := by
-  decide
-
-/-- the other writer functions the extractor lists hold allow-listed pointer-receiver calls only
-    (`LuaJITDecodeBCIns`: BcDef.HasD/IsJump; `decodeHTML`: lazyre.RE.Must) -/
-theorem writers_known :
-    ∀ r ∈ Gen.writerRefs, r.writer ∈ initOnly ∨ r.writer ∈ ["format/luajit.LuaJITDecodeBCIns", "format/xml.decodeHTML"] := by
-  decide
+/-- vacuity guard for the call-graph classification: it does find the registry's writes, at init time and
+    under the Once (if the classification lost them the table would be empty and `type_writes_ok` vacuous) -/
+theorem type_writes_seen :
+    (∃ w ∈ Gen.typeWrites, w.typ = "github.com/wader/fq/pkg/decode.Group" ∧ w.guard = "init")
+    ∧ (∃ w ∈ Gen.typeWrites, w.typ = "github.com/wader/fq/pkg/decode.Group"
+        ∧ w.guard = "once:github.com/wader/fq/pkg/interp.Registry.formatResolveOnce") := by decide
 
 /-- Module packages that are not linked into fq (not reachable from the root package main), hence not scanned
     for the tables above: documentation generator, the matroska EBML code generator (`go:generate` tool),
